@@ -52,6 +52,9 @@ class MetaOnly(Suite):
                 nm = b".fsutil-metadata" + rng.choice([b".tmp", b".tmp", b"~", b".new", b".lock", b".bak", b".swp", b".part", b".old", b"-tmp", b".1"])
                 if rng.random() < 0.1:
                     nm = b".tmp" + nm
+                if rng.random() < 0.3:
+                    # the listing name in another spelling (case): still an ordinary entry
+                    nm = rng.choice([b".Fsutil-Metadata", b".FSUTIL-METADATA", b".fsutil-Metadata", b".fsutil_metadata", b".fsutil-metadata "])
                 kind = rng.choice(["file", "file", "symlink"])
                 files = [e["p"] for e in tree if e["t"] == "file" and b"/" not in bytes.fromhex(e["p"])]
                 near = hx(nm)
